@@ -152,7 +152,29 @@ func init() {
 		{"utf8.ValidateString", func(s string, b []byte) string { return fmt.Sprint(sutf8.ValidateString(s)) }},
 		{"utf8.Validate", func(s string, b []byte) string { return fmt.Sprint(sutf8.Validate(b)) }},
 		{"utf8.CorrectWith", func(s string, b []byte) string { return string(sutf8.CorrectWith(nil, b, "?")) }},
+		// (new entries are appended: saved cases name entries by index)
+		{"default.UnmarshalString(cat.StrOpt)", decodeObs(def, func() interface{} { return new(cat.StrOpt) })},
+		{"default.UnmarshalString(cat.Omit)", decodeObs(def, func() interface{} { return new(cat.Omit) })},
+		{"default.UnmarshalString(cat.Wide)", decodeObs(def, func() interface{} { return new(cat.Wide) })},
+		{"optdec.UnmarshalString(cat.StrOpt)", func(s string, b []byte) string {
+			verifhook.SetDecoder(true, false)
+			defer verifhook.SetDecoder(false, false)
+			return decodeObs(def, func() interface{} { return new(cat.StrOpt) })(s, b)
+		}},
 	}
+}
+
+// c05EntryTypes: destination types of the typed decode entries (documents are then also generated for the type).
+var c05EntryTypes = map[string]reflect.Type{
+	"default.UnmarshalString([]int)":             reflect.TypeOf([]int(nil)),
+	"default.UnmarshalString(map[string]string)": reflect.TypeOf(map[string]string(nil)),
+	"default.UnmarshalString(struct{A int})":     reflect.TypeOf(c02Skip{}),
+	"std.UnmarshalString(cat.StrOpt)":            reflect.TypeOf(cat.StrOpt{}),
+	"default.UnmarshalString(cat.StrOpt)":        reflect.TypeOf(cat.StrOpt{}),
+	"default.UnmarshalString(cat.Omit)":          reflect.TypeOf(cat.Omit{}),
+	"default.UnmarshalString(cat.Wide)":          reflect.TypeOf(cat.Wide{}),
+	"optdec.UnmarshalString(struct)":             reflect.TypeOf(cat.EmbA{}),
+	"optdec.UnmarshalString(cat.StrOpt)":         reflect.TypeOf(cat.StrOpt{}),
 }
 
 var c05Conts = []string{`,3]`, `c"`, `34`, `e`, `41"`, `1`, `"`, `}`, `]`, `:1}`, `.5`, `e5`, `0`, `ull`, `rue`, `alse`, `\`, `\"x"`, ` x`, `,`, `{"a":[9,{"b":1}],"b":2}`, `":":"::`}
@@ -173,6 +195,16 @@ func drawC05(t *rapid.T) Case {
 		c.Data = gen.StringBody(t, gen.Hostile)
 		c.Source = "literal-body"
 	default:
+		if ty, ok := c05EntryTypes[name]; ok && rapid.Bool().Draw(t, "fordest") {
+			// a document made for the destination type (fields and option payloads are reached), cut anywhere
+			c.Data = gen.DocFor(t, ty, gen.DocForOpt{Str: strOpt, Perturb: 10})
+			c.Source = "for-destination"
+			if rapid.IntRange(0, 2).Draw(t, "trunc2") != 0 && len(c.Data) > 0 {
+				c.Data = c.Data[:rapid.IntRange(0, len(c.Data)).Draw(t, "cut2")]
+				c.Source = "for-destination-truncated"
+			}
+			break
+		}
 		switch rapid.IntRange(0, 5).Draw(t, "docsrc") {
 		case 0:
 			// short inputs: every prefix of a few tokens
@@ -204,6 +236,8 @@ func drawC05(t *rapid.T) Case {
 	}
 	return c
 }
+
+const c05GuardSize = 1 << 20
 
 var (
 	c05GuardMu sync.Mutex
@@ -264,19 +298,20 @@ func (c *C05Case) Run() (res stat.Result) {
 		return
 	}
 	// P1: last byte of the input is the last byte of a mapped page
-	if len(c.Data) > 0 {
-		c05GuardMu.Lock()
-		if c05Guard == nil {
-			g, err := newGuarded(1 << 16)
-			if err != nil {
-				c05GuardMu.Unlock()
-				panic("harness: mmap failed: " + err.Error())
+	if len(c.Data) > 0 && len(c.Data) <= c05GuardSize {
+		g1, f1 := func() (string, interface{}) {
+			c05GuardMu.Lock()
+			defer c05GuardMu.Unlock()
+			if c05Guard == nil {
+				g, err := newGuarded(c05GuardSize)
+				if err != nil {
+					panic("harness: mmap failed: " + err.Error())
+				}
+				c05Guard = g
 			}
-			c05Guard = g
-		}
-		p1 := c05Guard.atEnd(c.Data)
-		g1, f1 := observe("page-end", bytesToString(p1), p1)
-		c05GuardMu.Unlock()
+			p1 := c05Guard.atEnd(c.Data)
+			return observe("page-end", bytesToString(p1), p1)
+		}()
 		if !report("at the end of a mapped page (next page PROT_NONE)", g1, f1) {
 			return
 		}
